@@ -31,7 +31,7 @@ fn gen_stream(stream: &str, n: u64, seed: u64) {
         "num" => for _ in 0..n { writeln!(w, "{}", numrun::gen_num_line(&mut r)).unwrap(); },
         "evaltable" => { let d = gen::table_env().show(); for i in 0..gen::table_len() { writeln!(w, "eval {} {}", d, show_expr(&gen::table_case(i).unwrap())).unwrap(); } }
         "eval" | "evalill" => for _ in 0..n { let d = gen::gen_env(&mut r); let depth = 1 + r.below(4) as u32;
-            let e = gen::gen_tree(&mut r, depth, stream == "evalill"); writeln!(w, "eval {} {}", d.show(), show_expr(&e)).unwrap(); },
+            let mut e = gen::gen_tree(&mut r, depth, stream == "evalill"); if r.chance(1, 3) { gen::add_repeats(&mut r, &mut e); } writeln!(w, "eval {} {}", d.show(), show_expr(&e)).unwrap(); },
         "scanfrag" => { // exhaustive fragment sequences up to length n (n = 3 or 4), then nothing random
             for len in 1..=(n as usize) { for i in 0..32u64.pow(len as u32) { writeln!(w, "scan {}", hex(&lang::frag_seq(i, len))).unwrap(); } } }
         // every Unicode scalar value (n >= 1) or the blocks where scripts, numerals and case pairs live (n = 0), 256 code points per request
@@ -57,7 +57,13 @@ fn gen_stream(stream: &str, n: u64, seed: u64) {
         "parse" => for _ in 0..n { let len = r.usize(41); let ts = lang::gen_tokens(&mut r, len); writeln!(w, "parse {}", lang::show_tok_line(&ts)).unwrap(); },
         "rt" => for _ in 0..n { let d = 1 + r.below(4) as u32; let e = if r.chance(1, 60) { lang::gen_wide_tree(&mut r) } else { lang::gen_src_tree(&mut r, d) }; writeln!(w, "rt {} {}", r.below(6), show_expr(&e)).unwrap(); },
         "opt" | "optill" => for _ in 0..n { let d = gen::gen_env(&mut r); let depth = 1 + r.below(4) as u32;
-            let e = tree::gen_opt_tree(&mut r, depth, stream == "optill"); writeln!(w, "opt {} {}", d.show(), show_expr(&e)).unwrap(); },
+            let mut e = tree::gen_opt_tree(&mut r, depth, stream == "optill"); if r.chance(1, 3) { gen::add_repeats(&mut r, &mut e); } writeln!(w, "opt {} {}", d.show(), show_expr(&e)).unwrap(); },
+        // `wide:<stream>`: ONE list of thousands of small elements per case (n cases): recovered failures per element, or constant elements
+        st if st.starts_with("wide:") => { let kind = &st[5..]; for i in 0..n {
+            let k = i % 8; let len = match (k, r.below(5)) { (6, 0) => 33334, (6, _) => 34000 + r.usize(8000), (7, _) => 2000 + r.usize(3000), (_, 0) => 4090 + r.usize(20), (_, 1) => 10001 + r.usize(300), (_, 2) => 4200 + r.usize(1000), (_, 3) => 12000, _ => 6000 + r.usize(3000) };
+            let e = if kind == "json" && k == 6 { slac::Expression::Literal { value: slac::Value::Array((0..(32760 + r.usize(if i % 16 == 6 { 20 } else { 40000 }))).map(|j| slac::Value::Number(j as f64)).collect()) } }
+                    else { gen::gen_wide_tree(&mut r, len, k) }; let d = gen::table_env();
+            match kind { "json" => writeln!(w, "json {}", show_expr(&e)).unwrap(), kk => writeln!(w, "{} {} {}", kk, d.show(), show_expr(&e)).unwrap() } } }
         // deep ill-formed trees (nesting 1..=64) for the totality streams: `deep:<stream>`
         st if st.starts_with("chain:") => { let kind = &st[6..]; for _ in 0..n {
             let len = if r.chance(1, 4) { 990 + r.below(30) as u32 } else { 200 + r.below(2300) as u32 };
@@ -71,9 +77,9 @@ fn gen_stream(stream: &str, n: u64, seed: u64) {
                 "tcmp" => { let e2 = if r.chance(1, 3) { e.clone() } else { let d2 = 1 + r.below(64) as u32; gen::gen_deep_tree(&mut r, d2) }; writeln!(w, "tcmp {} {}", show_expr(&e), show_expr(&e2)).unwrap() }
                 k => writeln!(w, "{} {} {}", k, d.show(), show_expr(&e)).unwrap() } } }
         "chkvf" => for _ in 0..n { let d = gen::gen_env(&mut r); let depth = 1 + r.below(3) as u32;
-            let ill = r.chance(1, 4); let e = if r.chance(1, 2) { tree::gen_opt_tree(&mut r, depth, false) } else { gen::gen_tree(&mut r, depth, ill) }; writeln!(w, "chkvf {} {}", d.show(), show_expr(&e)).unwrap(); },
+            let ill = r.chance(1, 4); let mut e = if r.chance(1, 2) { tree::gen_opt_tree(&mut r, depth, false) } else { gen::gen_tree(&mut r, depth, ill) }; if r.chance(1, 4) { gen::add_repeats(&mut r, &mut e); } writeln!(w, "chkvf {} {}", d.show(), show_expr(&e)).unwrap(); },
         "chkbool" => for _ in 0..n { let d = gen::gen_env(&mut r); let depth = 1 + r.below(3) as u32;
-            let ill = r.chance(1, 4); let e = if r.chance(1, 2) { tree::gen_opt_tree(&mut r, depth, ill) } else { gen::gen_tree(&mut r, depth, ill) }; writeln!(w, "chkbool {} {}", d.show(), show_expr(&e)).unwrap(); },
+            let ill = r.chance(1, 4); let mut e = if r.chance(1, 2) { tree::gen_opt_tree(&mut r, depth, ill) } else { gen::gen_tree(&mut r, depth, ill) }; if r.chance(1, 3) { gen::add_repeats(&mut r, &mut e); } writeln!(w, "chkbool {} {}", d.show(), show_expr(&e)).unwrap(); },
         "json" => for _ in 0..n { let depth = r.below(4) as u32; let e = match r.below(3) { 0 => lang::gen_src_tree(&mut r, depth), 1 => tree::gen_opt_tree(&mut r, depth, true), _ => gen::gen_tree(&mut r, depth, true) };
             writeln!(w, "json {}", show_expr(&e)).unwrap(); },
         // `call` / `call:<name>[,<name>…]`: n argument lists per selected builtin
